@@ -96,8 +96,13 @@ def _prior(t, case):
 
 
 def _state(case):
-    t = rt.table_from_case(case)
-    return _prior(t, case)
+    t = _prior(rt.table_from_case(case), case)
+    if t is None:
+        return None
+    v = rt.view(t)
+    if 0 in v.A.shape or not ou.finite(v) or rt.inv(t):
+        return None              # the prior history left the property's domain (non-empty, finite tables)
+    return t
 
 
 # --------------------------------------------------------------------------
@@ -511,6 +516,13 @@ def prior_states(tier):
         for lay in rt.LAYOUTS:
             for pr in PRIORS[1:]:
                 yield {'A': dm.tolist(), 'layout': lay, 'zeros': 'z1', 'obs_md': 'text', 'samp_md': 'text', 'prior': pr}
+    if tier != 'quick':
+        # every operation of the reduced shared alphabet as the prior step
+        for dm in (_distinct(3, 3), _distinct(2, 3, 2)):
+            for lay in rt.LAYOUTS:
+                st = {'A': dm.tolist(), 'layout': lay, 'zeros': 'zall', 'obs_md': 'tax', 'samp_md': 'text'}
+                for a in ou.alphabet(rt.view(rt.table_from_case(st)), 'reduced'):
+                    yield dict(st, prior=[a])
 
 
 def sort_order_cases(tier, seed=0):
@@ -584,7 +596,7 @@ def update_ids_cases(tier):
         for axis in AXES:
             n = np.array(st['A']).shape[1 if axis == 'sample' else 0]
             # n=2: 7*6 = 42 total renamings; n=3: 8*7*6 = 336 (quick: every 6th)
-            yield dict(st, axis=axis, mode='total', stride=(6 if (q and n >= 3) else (2 if n >= 3 else 1)))
+            yield dict(st, axis=axis, mode='total', stride=(6 if (q and n >= 3) else 1))
             yield dict(st, axis=axis, mode='partial', stride=(4 if q else 1))
             yield dict(st, axis=axis, mode='edge')
     for st in prior_states(tier):
@@ -603,8 +615,14 @@ def align_cases(tier):
             variants = ('equal', 'obs-foreign', 'samp-foreign') if mode == 'detect' else ('equal',)
             yield dict(st, axis=mode, variants=variants, other_layout=st['layout'])
     for st in prior_states(tier):
+        if len(st['A']) * len(st['A'][0]) > 9:
+            continue
         for mode in ('both', 'detect'):
             yield dict(st, axis=mode, variants=('equal',), other_layout='csr_unsorted')
+    if not q:
+        for st in base_states(tier, [(4, 4)], md=False):
+            if st['zeros'] == 'z1':
+                yield dict(st, axis='both', variants=('equal',), other_layout=st['layout'])
 
 
 def run(rep):
@@ -617,7 +635,7 @@ def run(rep):
         st = ('distinct-valued matrices x layouts (csr, csr-unsorted, csc) x stored zeros (none/one/all) x metadata '
               '(none, text+taxonomy, numeric+slash) x ID alphabets; U(2) matrices over {0,1,2}; states after a prior '
               'operation (sort_order, transpose, in-place filter, subsample, update_ids, transform, concat, merge, '
-              'add_metadata)')
+              'add_metadata%s)' % ('' if t == 'quick' else '; thorough: every operation of the reduced shared alphabet'))
         rt.run_scope(rep, 'sort_order', 'every permutation of every axis of length <= 4 (random permutations, VERIF_SEED, '
                      'of axes of length 6..9), order given as list/array/tuple, inverse law; ' + st,
                      sort_order_cases(t, rep.seed), run_sort_order_case, chunk=8, exhaustive=True)
@@ -631,11 +649,11 @@ def run(rep):
         rt.run_scope(rep, 'update_ids', 'every injective total renaming of an axis of length <= 3 into a pool of 5 '
                      'short/long/non-ASCII/punctuated names + the axis\' own IDs (%s), every partial renaming with '
                      'strict=False, superfluous keys, non-injective renamings; x inplace; inverse law; %s'
-                     % ('quick: every 6th of the 336 for length 3' if t == 'quick' else 'every 2nd for length 3', st),
+                     % ('quick: every 6th of the 336 for length 3' if t == 'quick' else 'all 336 for length 3', st),
                      update_ids_cases(t), run_update_ids_case, chunk=2, exhaustive=(t != 'quick'))
         rt.run_scope(rep, 'align_to', 'self x other with equal ID sets in every order (all permutations of both axes '
                      'up to 3x3%s) x axis in sample/observation/both/detect (+ detect with one foreign axis); inverse '
-                     'law; %s' % ('' if t == 'quick' else ', 4x3', st), align_cases(t), run_align_case, chunk=4,
+                     'law; %s' % ('' if t == 'quick' else ', 4x3, and 4x4 for axis=both', st), align_cases(t), run_align_case, chunk=4,
                      exhaustive=True)
         rep.explanation = 'Bounded stand-in for C06 (permute / relabel only, inverse laws) on the real library.'
     common.finish_notes(rep, 'C06')
